@@ -294,8 +294,12 @@ class MetadataBase(object):
         # a failure must not truncate the destination file
         parser = self._get_parser()
         self.serialize(parser)
+        # build the content in memory as well: a value that cannot be written
+        # out must not leave a partially written file behind
+        content = six.StringIO()
+        self.build_file(parser, content)
         with open_file_obj(f, "w") as f:
-            self.build_file(parser, f)
+            f.write(content.getvalue())
 
     def dumps(self):
         """
